@@ -84,6 +84,8 @@ def make_cases(tier, sd):
 
     def rand_cfg(nc, nk, nops):
         keys = ["k", "j", "i", "h"][:nk]
+        if rnd.random() < 0.4:
+            keys = keys + ["k~2"]      # the same key of a second cache: caches share nothing
         ops = {"c%d" % (i + 1): [rnd.choice(keys) for _ in range(rnd.randrange(1, nops + 1))] for i in range(nc)}
         plan = {k: [rnd.random() < 0.5 for _ in range(rnd.randrange(0, 4))] for k in keys}
         return {"ops": ops, "plan": plan}
@@ -144,7 +146,9 @@ def pipeline(tier):
         out.append({"prop": "C20", "what": "the process was killed by the Go runtime inside the cache: " + t["crash"], "key": "", "at": 0,
                     "id": t["id"], "case": None, "mode": "crash"})
     res["violations"] = out
-    ctl = [t for t in traces if t["mode"] != "stress" and t.get("steps")]
+    # (Cache.tla is one cache with one lock: executions that also use a second cache are judged by
+    # the monitor, per cache and key, and are not compared with the design spec)
+    ctl = [t for t in traces if t["mode"] != "stress" and t.get("steps") and not any("~2" in k for ks in t["cfg"]["ops"].values() for k in ks)]
     sample = ctl if tier != "quick" else ctl[:: max(1, len(ctl) // 500)]
     dl = [{"id": t["id"], "cfg": t["cfg"], "steps": t["steps"], "events": to_p_line(t)["events"]} for t in sample]
     res["drift_checked"] = len(dl)
